@@ -201,6 +201,17 @@ pub fn describe_err(e: &CreateModuleError, source: &str, want_diag: bool) -> Val
                 Err(p) => json!({ "panic": p }),
             },
         );
+        d.insert(
+            "emit_to_string_with_non_utf8_path".into(),
+            match guarded(|| {
+                use std::os::unix::ffi::OsStrExt;
+                let p = std::path::Path::new(std::ffi::OsStr::from_bytes(b"dir/sh\xE4der \xFF.wgsl"));
+                e.emit_to_string_with_path(source, p)
+            }) {
+                Ok(s) => json!(s.len()),
+                Err(p) => json!({ "panic": p }),
+            },
+        );
         v["diag"] = Value::Object(d);
     }
     v
